@@ -718,6 +718,9 @@ func runBindClient(r *common.Run, local, reply, a, b string, class string) {
 			return []byte("<iq xmlns='jabber:server' type='result' id='" + id + "'><bind xmlns='" + nsBind + "'><jid>" + nc.Esc(a) + "</jid></bind></iq>")
 		case "space":
 			return []byte(" ")
+		case "trunc":
+			// a reply that stops in the middle of the address
+			return []byte("<iq type='result' id='" + id + "'><bind xmlns='" + nsBind + "'><jid>" + nc.Esc(a))
 		case "eof":
 			return nil
 		}
@@ -797,6 +800,10 @@ func runBindClient(r *common.Run, local, reply, a, b string, class string) {
 	}
 	assigned, aerr := jid.Parse(a)
 	switch {
+	case reply == "trunc":
+		if serr == nil || ready || after != lj.String() {
+			r.Fail("bind-adopt", "bad-reply-accepted:trunc", lines, fmt.Sprintf("truncated reply: err=%s ready=%v local=%q", ec, ready, after))
+		}
 	case reply == "res" && aerr == nil:
 		if serr != nil || !ready || after != assigned.String() {
 			r.Fail("bind-adopt", "assigned-not-reported", lines, fmt.Sprintf("server assigned %q; err=%s ready=%v local=%q", a, ec, ready, after))
@@ -1290,6 +1297,7 @@ func Run(r *common.Run) error {
 		for _, rep := range []string{"resnojid", "resnobind", "errempty", "noniq", "space", "eof"} {
 			runBindClient(r, l, rep, "", "", "bindc")
 		}
+		runBindClient(r, l, "trunc", "user@example.net/half", "", "bindc")
 		for _, cond := range []string{"conflict", "bad-request", "not-allowed", "resource-constraint"} {
 			runBindClient(r, l, "err", cond, "", "bindc")
 		}
